@@ -469,6 +469,31 @@ theorem deny_verbose (cfg : Cfg) (v : Bool) (e : Err) : ({ cfg with verbose := v
   unfold Cfg.deny
   cases classify e <;> simp only [httpStatus_verbose]
 
+/-- the whole reply (answer, error body) and the executed mechanisms are the same at every log level -/
+theorem serve_logLevel (ep : EntryPoint) (cfg : Cfg) (l : LogLevel) (view : ReqView) (up : Nat)
+    (found : Option Rule) :
+    serve ep { cfg with logLevel := l } view up found = serve ep cfg view up found := by
+  have hs : ∀ cl, ({ cfg with logLevel := l } : Cfg).httpStatus cl = cfg.httpStatus cl := by
+    intro cl; cases cl <;> rfl
+  have he : ∀ e, ({ cfg with logLevel := l } : Cfg).httpError e = cfg.httpError e := by
+    intro e; simp only [Cfg.httpError, hs]
+  have hd : ∀ e, ({ cfg with logLevel := l } : Cfg).deny e = cfg.deny e := by
+    intro e; unfold Cfg.deny; cases classify e <;> simp only [hs]
+  have hw : ∀ e, ({ cfg with logLevel := l } : Cfg).writeError view e = cfg.writeError view e := by
+    intro e; simp only [Cfg.writeError, he]
+  have hr : ∀ e, ({ cfg with logLevel := l } : Cfg).denyReply e = cfg.denyReply e := by
+    intro e; simp only [Cfg.denyReply, hd]
+  cases ep
+  all_goals
+    simp only [serve, serveHTTP, serveEnvoy]
+    cases execute found {} with
+    | panic pv c => simp only [hw]
+    | done out c =>
+      obtain ⟨backend, err⟩ := out
+      obtain ⟨pe, tr⟩ := c
+      cases err <;> cases pe <;> cases backend <;>
+        simp only [finalizeHTTP, finalizeEnvoy, hw, hr] <;> rfl
+
 theorem answer_verbose (ep : EntryPoint) (cfg : Cfg) (v : Bool) (view view' : ReqView) (up : Nat)
     (found : Option Rule) :
     answer ep { cfg with verbose := v } view' up found = answer ep cfg view up found := by
